@@ -261,6 +261,13 @@ pub fn replay_child(args: &Args) {
     let topic = topic_of(args.param("topic").unwrap());
     let key = key_of(args.param("key").unwrap());
     let out_path = args.param("result").unwrap().to_string();
+    // Diagnostics only: trace of the stack's own log lines on stderr (the parent keeps the tail when
+    // the replay stalls).
+    let _ = tracing_subscriber::fmt()
+        .with_env_filter(tracing_subscriber::EnvFilter::new("p2panda=trace,p2panda_stream=trace,p2panda_store=trace,p2panda_sync=debug,sqlx=warn"))
+        .with_writer(std::io::stderr)
+        .with_ansi(false)
+        .try_init();
     let rt = tokio::runtime::Builder::new_multi_thread().worker_threads(2).enable_all().build().unwrap();
     rt.block_on(async move {
         let node = p2panda::Node::builder()
@@ -554,6 +561,9 @@ fn run_case(seed: u64, case: u64, crash: Option<usize>, sigkill: bool, hook: Opt
         return res;
     };
     if !out.sentinel_seen {
+        let err = std::fs::read_to_string(dir.path().join("replay.stderr")).unwrap_or_default();
+        let keep = format!("/tmp/c15-stall-seed{seed}-case{case}-{}.stderr", std::process::id());
+        let _ = std::fs::write(&keep, &err);
         res.inconclusive = Some(format!("case {case} (crash_after={crash:?}, hook={hook:?}, sigkill={sigkill}): replay sentinel not observed within the watchdog (delivered {} so far, replay_started={:?}, replay_ended={}, errors={:?})", out.delivered.len(), out.replay_started_total, out.replay_ended, out.failed));
         return res;
     }
